@@ -54,8 +54,9 @@ func closeInFlight(b run.Batch, r *ev.Result, rng *rand.Rand) bool {
 			time.Sleep(time.Duration(150+50*(i%3)) * time.Millisecond) // reach only: lets Close() get to the point where it waits for this handler
 		}})
 		var trig func() string
+		slot := w.now() - 5
 		if c.op == "report" {
-			raw := w.A.Report(w.now()-5, uint64(1000+rng.Intn(1000))).Bytes()
+			raw := w.A.Report(slot, uint64(1000+rng.Intn(1000))).Bytes()
 			trig = func() string { w.udp.Write(raw); return "0" }
 		} else {
 			trig = w.prep(c.op)
@@ -77,6 +78,10 @@ func closeInFlight(b run.Batch, r *ev.Result, rng *rand.Rand) bool {
 			r.Count("closeinflight.closed", 1)
 			r.Count("closeinflight.site."+c.site, 1)
 			r.Nontrivial("cif:" + name)
+			if c.op == "report" && !restartsAgree(w, r, name, slot) {
+				w.shutdown()
+				return false
+			}
 			w.shutdown()
 		case <-time.After(40 * time.Second):
 			curCell.Store(nil)
@@ -88,6 +93,42 @@ func closeInFlight(b run.Batch, r *ev.Result, rng *rand.Rand) bool {
 			w.shutdown()
 			return false
 		}
+	}
+	return true
+}
+
+// restartsAgree: Close() has returned while a report was in flight. The
+// directory is started again at once (the closed instance may still be
+// finishing that report if its handler was not waited for), left alone for a
+// while - the new instance receives nothing - and restarted once more: what
+// the two later instances hold for the report's slot must be the same,
+// whether the report made it to disk before Close() returned or not.
+func restartsAgree(w *cw, r *ev.Result, name string, slot uint32) bool {
+	look := func() (string, bool) {
+		rep, _, off, present := w.S.VerifSlot(w.A.ID, int(slot-w.S.VerifSnapshot(false).Offset))
+		_ = off
+		return fmt.Sprintf("present=%v power=%d", present, rep.PowerOutput), true
+	}
+	if err := w.World.Srv.Start(); err != nil {
+		r.Inconc("close in flight: restart: " + err.Error())
+		return false
+	}
+	time.Sleep(500 * time.Millisecond) // reach only: a handler the closed instance left behind finishes meanwhile
+	second, _ := look()
+	if err := w.World.Srv.Close(); err != nil {
+		r.Inconc("close in flight: second close: " + err.Error())
+		return false
+	}
+	if err := w.World.Srv.Start(); err != nil {
+		r.Inconc("close in flight: second restart: " + err.Error())
+		return false
+	}
+	third, _ := look()
+	r.Count("closeinflight.restart_pairs_compared", 1)
+	if second != third {
+		r.Violationf("restart-changed-state-after-close-in-flight", map[string]interface{}{"cell": name, "slot": slot, "batch": curBatch},
+			"Close() returned while a report for slot %d was in flight; the instance started next holds %s for that slot and received nothing, the instance started after it holds %s", slot, second, third)
+		return false
 	}
 	return true
 }
